@@ -463,6 +463,12 @@ impl XBundle {
                         if w.ts >= 32768 && !(p.tick_lower_index == -427648 && p.tick_upper_index == 427648) {
                             ctx.viol("C18 a bundled position of a full-range-only pool is not full range".to_string());
                         }
+                        // the opener pre-pays the rent of the two ticks the position may initialise in dynamic tick arrays
+                        let want_l = solana_program::rent::Rent::default().minimum_balance(216) + 2 * crate::ix::TICK_RENT;
+                        let got_l = w.bank.get(&position_pda(&w.mint, i)).lamports;
+                        if got_l < want_l {
+                            ctx.viol(format!("C13 the opened bundled position holds {} lamports, less than rent exemption + the rent of two ticks ({}): with dynamic tick arrays its first deposit cannot pay for its ticks, with fixed arrays it can", got_l, want_l));
+                        }
                         out_line = format!("ok {} {} {}", p.tick_lower_index, p.tick_upper_index, w.state_suffix());
                     }
                     Err(e) => {
